@@ -73,6 +73,20 @@ func mixStr(d uint64, s string) uint64 {
 }
 func mixState(d uint64, s ref.State) uint64 { return mixStr(d, s.String()) }
 
+type failWriter struct {
+	after, n int
+	sb       strings.Builder
+}
+
+func (w *failWriter) Write(p []byte) (int, error) {
+	if w.n >= w.after {
+		return 0, io.ErrClosedPipe
+	}
+	w.n++
+	w.sb.Write(p)
+	return len(p), nil
+}
+
 func newActor(id int) *c18actor {
 	return &c18actor{id: id, rig: newRig(), cur: new(int32)}
 }
@@ -170,6 +184,15 @@ func (a *c18actor) op(kind int, g *vf.Rng) (d uint64) {
 			invoke(cl, c)
 		}
 		e.Append(cl)
+		if g.Intn(3) == 0 {
+			// error paths too: a writer that fails after a few lines
+			fw := &failWriter{after: g.Intn(6)}
+			err1 := e.WriteTextTo(fw)
+			fw2 := &failWriter{after: g.Intn(6)}
+			err2 := e.WriteHexTo(fw2)
+			d = mixStr(d, fmt.Sprint(err1 != nil, err2 != nil, fw.n, fw2.n))
+			d = mixStr(d, fw.sb.String())
+		}
 		t1, _, _ := listText(e)
 		h1, _, _ := listHex(e)
 		d = mixDigest(d, e.Bytes()...)
